@@ -5,11 +5,21 @@
   before the call — in particular not into the array backing the source / the input slice — and the
   bytes of all pre-existing arrays are unchanged; the buffer's result aliases the input only when nothing
   was written. The pre-repair Segment.Value is kept as a refuting witness (it did store into the source).
-  What the model cannot exhibit: a store through code that is not modelled (the block/inline parsers, the
-  renderers). That part is searched: the harness converts every document from a PROT_READ mapping whose
-  spare capacity is read-only too (component `rosource`).
+  The REST of the code base is tied to this by a kernel-checked obligation over a write-site inventory that is
+  REGENERATED from the tree under test on every run (GM.Gen.SliceWrites; extractor harness/cmd/gmgen/gen_slicewrites.go):
+  every byte-slice write primitive (index store, copy, append, clear, a []byte handed to a writing library call or
+  to a goldmark function that writes through that parameter) in parser/, text/, util/, renderer/, extension/, ast/
+  and the root package has a destination the writing function owns (freshly allocated, the copy-on-write buffer's
+  own buffer behind its guard, or a parameter whose every call site is checked), or is on the reviewed allow-list
+  of GM.Spec.SliceWrites.
+  What neither the model nor the inventory can exhibit: the origin analysis is intra-procedural (plus result /
+  written-parameter summaries of statically resolved goldmark callees); memory reached through struct fields,
+  interfaces or reflection is classified `field`/`call`/`unknown`, i.e. never trusted, but a slice that is stored
+  in a field and written elsewhere through a FRESH-looking alias is outside it. That part is searched: the harness
+  converts every document from a PROT_READ mapping whose spare capacity is read-only too (component `rosource`).
 -/
 import GM.Proof.Slices
+import GM.Spec.SliceWrites
 
 namespace GM.Props.C12
 open GM GM.Slices
@@ -56,5 +66,24 @@ example :
 example :
     (cowRun (fun n => 2 * n) { arrs := [[1, 2, 3]], stores := [] } ⟨0, 0, 3, 3⟩ [.append [4], .append [5], .write [6]]).1.stores = [1, 1, 1] := by
   decide
+
+/-- Regenerated fact: every byte-slice write site of goldmark writes to memory its function owns (fresh, the
+    copy-on-write buffer behind its guard, a call-site-checked parameter) or is a reviewed exception. A new
+    `append(view, …)`, `bytes.NewBuffer(view)`, `view[i] = c`, `copy(view, …)`, `strconv.AppendInt(view, …)` with
+    `view` derived from a parameter, a call result, a field or a global breaks this theorem. -/
+theorem facts_slice_writes_fresh : Spec.sliceWritesOK Gen.sliceWrites = true := by decide +kernel
+
+/-- Regenerated fact (sanity / non-vacuity of the inventory): it is not empty and contains the write sites the
+    property text itself points at. -/
+theorem facts_slice_writes_cover : Spec.sliceWritesCover Gen.sliceWrites = true := by decide +kernel
+
+/-- Regenerated fact: the four mutators of CopyOnWriteBuffer have the guard shape the heap model stands for. -/
+theorem facts_cow_sites_guarded : Spec.cowSitesGuarded Gen.sliceWrites = true := by decide +kernel
+
+/-- test: the predicate is not trivially true — a site whose destination derives from a parameter, or from a call
+    result, is rejected; the same site with a fresh destination is accepted -/
+example : Spec.sliceWritesOK [⟨"parser", "ids.Generate", "append", "result[:base]", .param, "param:0", "parser.go", 1⟩] = false ∧
+    Spec.sliceWritesOK [⟨"parser", "parseAttributeString", "writer:bytes.NewBuffer", "line[:i]", .call, "call", "attribute.go", 1⟩] = false ∧
+    Spec.sliceWritesOK [⟨"parser", "ids.Generate", "append", "result", .fresh, "", "parser.go", 1⟩] = true := by decide
 
 end GM.Props.C12
